@@ -1322,6 +1322,70 @@ def _scratch_root():
     return SCRATCH
 
 
+def run_large_sidefiles(case):
+    """A multi-file system whose integer arrays (environment map, chemostat map) sit in text side files of 30-140 kB, one value
+    per line or several per line: the loaded system must hold every entry, the last ones included."""
+    use_repo()
+    import json as _json
+    import numpy as np
+    import strengths as st
+    from vf.common import SCRATCH
+    sd, idx = case["seed"], case["idx"]
+    r = gen.rng_for(sd, "C12large", idx)
+    w, h = r.choice([(130, 130), (200, 90), (17000, 1), (150, 151)])
+    n = w * h
+    S = r.randint(2, 3)
+    labels = ["A", "B", "C"][:S]
+    envs = ["e0", "e1", "e2"]
+    cell_env = [r.randrange(3) for _ in range(n)]
+    chst = [int(r.random() < 0.3) for _ in range(S * n)]
+    chst[-1], chst[-2], cell_env[-1] = 1, 0, 2
+    os.makedirs(SCRATCH, exist_ok=True)
+    root = tempfile.mkdtemp(prefix="c12large-", dir=SCRATCH)
+    bad, counts = [], {"large_sidefile_systems": 1}
+    try:
+        sub = os.path.join(root, "model")
+        os.makedirs(os.path.join(sub, "arrays"))
+        seps = {"env": r.choice(["\n", "\n", " \n", ",\n"]), "ch": r.choice(["\n", "\n", " ", ", "])}
+        per_line = r.choice([1, 1, 8, 100])
+
+        def text(vals, sep):
+            if per_line == 1:
+                return sep.join(str(v) for v in vals) + r.choice(["", "\n"])
+            rows = [" ".join(str(v) for v in vals[k:k + per_line]) for k in range(0, len(vals), per_line)]
+            return "\n".join(rows) + "\n"
+        for name, vals, key in (("arrays/env.txt", cell_env, "env"), ("arrays/chst.txt", chst, "ch")):
+            with open(os.path.join(sub, name), "w") as f:
+                f.write(text(vals, seps[key]))
+        counts["large_sidefile_bytes"] = os.path.getsize(os.path.join(sub, "arrays/chst.txt"))
+        d = {"network": {"species": [{"label": l, "density": 1.0} for l in labels], "environments": envs},
+             "space": {"type": "grid", "w": w, "h": h, "d": 1, "cell_env": "arrays/env.txt"},
+             "chemostats": "arrays/chst.txt"}
+        jpath = os.path.join(sub, "system.json")
+        with open(jpath, "w", encoding="utf-8") as f:
+            _json.dump(d, f)
+        cwd = os.getcwd()
+        os.chdir(root)
+        try:
+            system = st.load_rdsystem(os.path.join("model", "system.json") if r.random() < 0.5 else jpath)
+        finally:
+            os.chdir(cwd)
+        got_env = [int(x) for x in system.space.get_cell_env_array()]
+        got_ch = [int(bool(x)) for x in system.chemostats]
+        for name, got, want in (("cell_env", got_env, cell_env), ("chemostats", got_ch, chst)):
+            counts["large_sidefile_entries"] = counts.get("large_sidefile_entries", 0) + len(want)
+            if got != want:
+                k = next((k for k, (a, b) in enumerate(zip(got, want)) if a != b), min(len(got), len(want)))
+                bad.append({"what": "large side file: the loaded %s is not the array in the file" % name, "entries_in_file": len(want), "entries_loaded": len(got),
+                            "first_difference": k, "values_per_line": per_line, "case": case})
+    except Exception as e:
+        bad.append({"what": "large side file: exception while loading a valid multi-file system", "error": "%s: %s" % (type(e).__name__, e), "case": case})
+    finally:
+        shutil.rmtree(root, ignore_errors=True)
+    return {"bad": bad[:2], "counts": counts, "key": chash(["large-sidefiles", sd, idx]), "nontrivial": True,
+            "sample": {"seed": sd, "idx": idx, "cells": n, "species": S, "values_per_line": per_line}}
+
+
 def main():
     if len(sys.argv) > 2 and sys.argv[1] == "--replay":
         return replay(sys.argv[2])
@@ -1406,6 +1470,9 @@ def main():
     from vf.common import seed as _seed, tier as _tier
     _run_extra(run, "vf.history:h_traj_system_vs_script", [{"seed": _seed(), "idx": _i} for _i in range(640 if _tier() == "thorough" else 64)], cpu_budget=60, kind_prefix="history: ")
     _run_extra(run, "vf.history:h_traj_names", [{"seed": _seed(), "idx": _i} for _i in range(480 if _tier() == "thorough" else 48)], cpu_budget=60, kind_prefix="history: ")
+    from vf.sandbox import run_extra as _rx9
+    _rx9(run, "vf.checks.c12:run_large_sidefiles", [{"seed": seed(), "idx": _i} for _i in range(40 if tier() == "thorough" else 6)], cpu_budget=300)
+    run.require("large_sidefile_entries")
     return run.finish()
 
 
